@@ -97,6 +97,8 @@ def build(inst, maxd):
     gens = inst["gens"]
     k = len(inst["names"])
     D = choose_degree(k, maxd, log_base_size(inst))
+    if inst.get("family", "").startswith("tuple:saturation") and k == 3:
+        D = max(D, 3)  # the relations that need the saturation step have degree 3 here
     Ms = lc.mons(k, D)
     m = len(Ms)
     n0 = inst["n0"]
